@@ -785,6 +785,18 @@ func PendingTimers() int {
 	return n
 }
 
+// CrashHook, when set by a harness, is called at every crash point that the
+// instrumenter inserted (files listed under "crash" in inst.json): before every
+// statement of those files. The label is "<file>:<line>".
+var CrashHook func(label string)
+
+// Crash is the crash-point marker.
+func Crash(label string) {
+	if h := CrashHook; h != nil {
+		h(label)
+	}
+}
+
 // ---- helpers ---------------------------------------------------------------
 
 // SortedKeys returns the keys of m in a canonical order (one legal iteration
